@@ -92,6 +92,28 @@ def run_part(prop, tier, res, findings, work, map_ops, edit_ops, relevant, plans
     return len(events)
 
 
+def apalache_inductive(work):
+    """Unbounded histories at property level: Apalache checks that name uniqueness is an inductive invariant of the
+    ordered-list model (spec/apalache/TgMapInd.tla).  A failure is a machinery failure (the specification is wrong)."""
+    import subprocess
+    spec = os.path.join(common.SPEC, "apalache", "TgMapInd.tla")
+    out = {}
+    for name, args in (("initiation", ["--init=Init", "--inv=IndInv", "--length=0"]),
+                       ("consecution", ["--init=IndInit", "--inv=IndInv", "--length=1"])):
+        try:
+            p = subprocess.run(["apalache-mc", "check"] + args + ["--out-dir=" + os.path.join(work, "apa"), spec],
+                               stdout=subprocess.PIPE, stderr=subprocess.STDOUT, text=True, timeout=900, cwd=os.path.dirname(spec))
+        except (OSError, subprocess.TimeoutExpired) as ex:
+            out[name] = "not run: %s" % type(ex).__name__
+            continue
+        if "The outcome is: NoError" in p.stdout:
+            out[name] = "NoError"
+        else:
+            sys.stderr.write(p.stdout[-2000:])
+            raise common.MachineryError("Apalache: the inductive invariant of TgMapInd fails (%s)" % name)
+    return out
+
+
 def check_c12(prop, tier):
     res = common.Result(prop)
     work = common.scratch()
@@ -100,6 +122,7 @@ def check_c12(prop, tier):
         rel = lambda c: c.startswith("C12_") or c in ("times_off_grid", "UNKNOWN_OP")
         run_part(prop, tier, res, common.load_findings(), work, MAP_OPS, ["cropTg", "eraseTg", "spaceTg", "editTg", "mergeTg"], rel)
         res.exhaustive = True
+        res.notes["apalache_inductive_invariant"] = apalache_inductive(work)
         res.rule = ("TLC explores every addTier/removeTier/renameTier/replaceTier history (4 names, <= 5 slots, indices -2..len+2 and "
                     "None, depth 5) at design level; every transition of a reduced universe and of the tier-wise edits on all two-tier "
                     "textgrids is replayed on real Textgrid objects; plus random millisecond-grid textgrids and live map histories. "
